@@ -376,17 +376,18 @@ func checkSynth(t ev.TB, c *synthCase) {
 		ev.Case(false, nil, "rejected")
 		return
 	}
-	rp := checkCmap(cm, c.Exhaustive, c.hints())
-	sel, selStruct := c.selected(rp)
+	typeName, innerType := typeNames(cm)
+	sel, selStruct := c.selected(innerType)
 	_ = sel // nil when two subtables have the selected format: selStruct is then their union
-	sh := shapeOfType(rp)
+	sh := shapeOfType(typeName, innerType)
 	sh.inverted, sh.unordered = selStruct.inverted, selStruct.unordered
+	rp := checkCmap(cm, c.Exhaustive, c.hints(), newMatcher(sh))
 	cc.Selected = rp.typeName
 	if rp.counts[dPanic] > 0 && (sh.inverted || sh.unordered) {
 		ev.Case(false, nil, "accepted", "panic_on_malformed")
 		return
 	}
-	first, ids := judge(rp, sh)
+	first, ids := judge(rp)
 	for _, id := range ids {
 		ev.Excluded(id)
 	}
@@ -431,7 +432,7 @@ func checkSynth(t ev.TB, c *synthCase) {
 	ev.Case(nontrivial, data, labels...)
 	if first != nil {
 		cc.Disc, cc.Count = first, rp.counts
-		ev.Fail(t, "synth", &cc, "synthetic cmap (%s): %s  [all discrepancies: %v]", rp.typeName, first.Msg, rp.counts)
+		ev.Fail(t, "synth", &cc, "synthetic cmap (%s): %s  [all discrepancies: %v, of which matched by listed findings: %v]", rp.typeName, first.Msg, rp.counts, rp.excused)
 	}
 	if nontrivial && ev.WantSample() {
 		ev.Sample(map[string]any{"subtables": c.Subtables, "font_page": c.FontPage, "cmap_type": rp.typeName, "runes_mapped": rp.nLookup, "iter_pairs": rp.nIter})
@@ -453,8 +454,8 @@ func (c *synthCase) offsetsBroken() bool {
 
 // selected identifies the subtable ProcessCmap chose, from the type of the resulting cmap: it is
 // unambiguous when exactly one subtable has the corresponding format.
-func (c *synthCase) selected(rp *report) (*subtable, structure) {
-	want := map[string][]int{"font.cmap0": {0}, "font.cmap4": {4}, "font.cmap6or10": {6, 10}, "font.cmap12": {12}, "font.cmap13": {13}}[rp.innerType]
+func (c *synthCase) selected(innerType string) (*subtable, structure) {
+	want := map[string][]int{"font.cmap0": {0}, "font.cmap4": {4}, "font.cmap6or10": {6, 10}, "font.cmap12": {12}, "font.cmap13": {13}}[innerType]
 	var found *subtable
 	n := 0
 	for i := range c.Subtables {
